@@ -23,6 +23,7 @@ let action_of a =
      | 'p', [fl; cb] -> Some (AWatch (KProc, Z0, flags_of fl, zi cb))
      | _ -> failwith "w")
   | 'c' when String.length a > 1 && a.[1] <> 'b' -> Some (ACancel (zi (int_of_string (tl a 1))))
+  | 'd' when String.length a = 1 -> Some ADrop
   | _ -> None
 let parse_case line =
   let cbs = Hashtbl.create 8 and ubs = Hashtbl.create 8 in
@@ -77,20 +78,140 @@ let model line =
     | Some l -> pr_obs l
     | None -> "FAULT"
   else
-    match h_run seeded3 env uenv ops with
+    match (if seeded3 then h_run seeded3 env uenv ops else h_runx false env uenv ops) with
     | None -> "FAULT"
     | Some (l, leakfree) ->
-      if (not seeded3) && l <> run false env uenv ops then "ERR heap model and list model disagree" else
+      if (not seeded3) && l <> runx false env uenv ops then "ERR heap model and list model disagree" else
       if leakfree then pr_obs l else if l = [] then "LEAK" else pr_obs l ^ " LEAK"
 let oracle line =
   match String.index_opt line '|' with
   | Some i ->
     let c = String.sub line 0 i and o = tl line (i + 1) in
     let (env, uenv, ops) = parse_case c in
+    (* a script in which the application drops its reference ends with the tick during which that
+       happens (LoopDefs.runx): the specification is applied to that prefix; the destroy
+       notifications then carry the iteration number of that tick instead of -1 *)
+    let rec firstn k l = if k <= 0 then [] else match l with [] -> [] | x :: r -> x :: firstn (k - 1) r in
+    let n = List.length ops in
+    let rec cut k = if k > n then (ops, false) else
+        let p = firstn k ops in if snd (run_opsx false env uenv p st0) then (p, true) else cut (k + 1) in
+    let (ops, early) = cut 1 in
     (match (try Some (parse_obs o) with _ -> None) with
      | None -> "BAD unreadable observation"
-     | Some obs -> if spec_checkb env uenv ops obs then "OK" else "BAD differs from the specification: " ^ pr_obs (spec_run env uenv ops))
+     | Some obs ->
+       let obs = if not early then obs else
+           List.map (function OEv e when int_of_z e.e_flags land 4 <> 0 -> OEv { e with e_iter = zi (-1) } | x -> x) obs in
+       if spec_checkb env uenv ops obs then "OK" else "BAD differs from the specification: " ^ pr_obs (spec_run env uenv ops))
   | None -> "BAD"
+(* ---- chain cases "WS ..." (signal chain) / "WP ..." (process chain): model LoopChain.h_crun (heap level: FAULT / LEAK),
+   oracle LoopChain.l_checkb (the snapshot specification).  Actions ws<sig>:<fl>:<cb> / wp<fl>:<cb>, c<id>, -;
+   ops G<sig> (signal dispatch), H (SIGCHLD dispatch), X<id>:<status>, r0 *)
+let chain_mode line = match split_ws line with "WS" :: _ -> Some false | "WP" :: _ -> Some true | _ -> None
+let cact_of proc a =
+  if a = "-" then Some CNop else
+  match a.[0] with
+  | 'w' ->
+    (match a.[1], ints (tl a 2) with
+     | 's', [sg; fl; cb] when not proc -> Some (CReg (fl land 1 <> 0, zi sg, fl land 2 <> 0, fl land 4 <> 0, zi cb))
+     | 'p', [fl; cb] when proc -> Some (CReg (fl land 1 <> 0, Z0, fl land 2 <> 0, fl land 4 <> 0, zi cb))
+     | _ -> failwith "chain w")
+  | 'c' when String.length a > 1 && a.[1] <> 'b' -> Some (CCancel (zi (int_of_string (tl a 1))))
+  | _ -> None
+let parse_chain proc line =
+  let cbs = Hashtbl.create 8 in
+  let ops = ref [] in
+  List.iter (fun tok ->
+      if tok = "WS" || tok = "WP" then () else
+      if String.length tok > 2 && tok.[0] = 'c' && tok.[1] = 'b' then begin
+        match String.index_opt tok '=' with
+        | Some i ->
+          let k = int_of_string (String.sub tok 2 (i - 2)) in
+          let acts = List.filter (fun x -> x <> "") (String.split_on_char ',' (tl tok (i + 1))) in
+          Hashtbl.replace cbs k (List.map (fun a -> match cact_of proc a with Some x -> x | None -> failwith ("act " ^ a)) acts)
+        | None -> failwith "cb"
+      end else
+        match cact_of proc tok with
+        | Some a -> ops := KAct a :: !ops
+        | None ->
+          (match tok.[0] with
+           | 'G' -> ops := KWalk (zi (int_of_string (tl tok 1))) :: !ops
+           | 'H' -> ops := KWalk Z0 :: !ops
+           | 'X' -> (match ints (tl tok 1) with [id; st] -> ops := KExit (zi id, zi st) :: !ops | _ -> failwith "X")
+           | 'r' -> ops := KTick :: !ops
+           | _ -> failwith ("op " ^ tok)))
+    (split_ws line);
+  let env z = try Hashtbl.find cbs (int_of_z z) with Not_found -> [] in
+  (env, List.rev !ops)
+let chain_model proc line =
+  let (env, ops) = parse_chain proc line in
+  match h_crun proc env (nat_of_int 3000) ops with
+  | None -> "FAULT"
+  | Some (l, leakfree) ->
+    if l <> l_run proc env ops then "ERR heap level and specification disagree" else
+    if leakfree then pr_obs l else if l = [] then "LEAK" else pr_obs l ^ " LEAK"
+let chain_oracle proc c o =
+  let (env, ops) = parse_chain proc c in
+  match (try Some (parse_obs o) with _ -> None) with
+  | None -> "BAD unreadable observation"
+  | Some obs -> if l_checkb proc env ops obs then "OK" else "BAD differs from the chain specification: " ^ pr_obs (l_run proc env ops)
+(* ---- IO cases "WI ...": model LoopIo.hi_run (heap level of the IO watches of the built instance: chain + the default
+   loop's slot arrays; FAULT / LEAK), oracle LoopIo.j_checkb.  Actions wi<fdindex>:1:<fl>:<cb>, c<id>, -; ops
+   R<fdindex>:1 (the descriptor is ready at the next poll), r0.  The model numbers the terminal watch of tickit_build 0:
+   the harness's watch k is the model's k+1. *)
+let io_mode line = match split_ws line with "WI" :: _ -> true | _ -> false
+let iact_of a =
+  if a = "-" then Some INop else
+  match a.[0] with
+  | 'w' ->
+    (match a.[1], ints (tl a 2) with
+     | 'i', [fd; _; fl; cb] -> Some (IReg (fl land 1 <> 0, zi fd, fl land 2 <> 0, fl land 4 <> 0, zi cb))
+     | _ -> failwith "io w")
+  | 'c' when String.length a > 1 && a.[1] <> 'b' -> Some (ICancel (zi (int_of_string (tl a 1) + 1)))
+  | _ -> None
+let parse_io line =
+  let cbs = Hashtbl.create 8 in
+  let ops = ref [] and ready = ref [] in
+  List.iter (fun tok ->
+      if tok = "WI" then () else
+      if String.length tok > 2 && tok.[0] = 'c' && tok.[1] = 'b' then begin
+        match String.index_opt tok '=' with
+        | Some i ->
+          let k = int_of_string (String.sub tok 2 (i - 2)) in
+          let acts = List.filter (fun x -> x <> "") (String.split_on_char ',' (tl tok (i + 1))) in
+          Hashtbl.replace cbs k (List.map (fun a -> match iact_of a with Some x -> x | None -> failwith ("act " ^ a)) acts)
+        | None -> failwith "cb"
+      end else
+        match iact_of tok with
+        | Some a -> ops := JAct a :: !ops
+        | None ->
+          (match tok.[0] with
+           | 'R' -> (match ints (tl tok 1) with [f; _] -> ready := zi f :: !ready | _ -> failwith "R")
+           | 'r' -> ops := JTick (List.rev !ready) :: !ops; ready := []
+           | _ -> failwith ("op " ^ tok)))
+    (split_ws line);
+  let env z = try Hashtbl.find cbs (int_of_z z) with Not_found -> [] in
+  (env, List.rev !ops)
+let shift d = List.map (function OEv e -> OEv { e with e_id = zi (int_of_z e.e_id + d) } | x -> x)
+let io_model line =
+  let (env, ops) = parse_io line in
+  match hi_run env ops with
+  | None -> "FAULT"
+  | Some (l, leakfree) ->
+    if l <> j_run env ops then "ERR heap level and specification disagree" else
+    let l = shift (-1) l in
+    if leakfree then pr_obs l else if l = [] then "LEAK" else pr_obs l ^ " LEAK"
+let io_oracle c o =
+  let (env, ops) = parse_io c in
+  match (try Some (parse_obs o) with _ -> None) with
+  | None -> "BAD unreadable observation"
+  | Some obs -> if j_checkb env ops (shift 1 obs) then "OK" else "BAD differs from the IO specification: " ^ pr_obs (shift (-1) (j_run env ops))
+let model line = if io_mode line then io_model line else match chain_mode line with Some proc -> chain_model proc line | None -> model line
+let oracle line =
+  match String.index_opt line '|' with
+  | Some i when io_mode line -> io_oracle (String.sub line 0 i) (tl line (i + 1))
+  | Some i when chain_mode line <> None ->
+    (match chain_mode line with Some proc -> chain_oracle proc (String.sub line 0 i) (tl line (i + 1)) | None -> "BAD")
+  | _ -> oracle line
 let () =
   let f = if Array.length Sys.argv > 1 && Sys.argv.(1) = "oracle" then oracle else model in
   iter_lines (fun l -> print_endline (try f l with Failure m -> "ERR " ^ m | Not_found -> "ERR nf" | Invalid_argument m -> "ERR " ^ m))
